@@ -181,6 +181,20 @@ pub fn generate(rng: &mut Rng, scale: u32) -> Generated {
             }
         }
     }
+    // a side table whose only purpose is a catalog entry with every kind of column constraint
+    // (FOREIGN KEY with referential actions, CHECK, DEFAULT, NOT NULL): the catalog decoder's
+    // constraint paths are otherwise never fed
+    if rng.chance(2, 3) {
+        let p = &tables[0];
+        let action = *rng.pick(&["", " ON DELETE CASCADE", " ON DELETE CASCADE ON UPDATE CASCADE", " ON UPDATE CASCADE"]);
+        stmts.push(format!(
+            "CREATE TABLE zc (id INT PRIMARY KEY, p {} REFERENCES {}(id){}, q INT DEFAULT 5 CHECK (q >= 0), r TEXT NOT NULL DEFAULT 'x')",
+            p.cols[0].1.sql(),
+            p.name,
+            action
+        ));
+        stmts.push("INSERT INTO zc (id, q) VALUES (1, 3), (2, 9)".to_string());
+    }
     // rows
     let mut dml: Vec<String> = vec![];
     for t in tables.iter_mut() {
